@@ -874,9 +874,7 @@ class Summariser:
         return False
 
     def roots_in_self(self, t):
-        while isinstance(t, tuple) and t and t[0] in ("attr", "sub"):
-            t = t[1]
-        return t == ("param", "self")
+        return root_of(t) == ("param", "self")
 
     def mk_eval(self, st, p, ctx, node):
         t = ("eval", p, ctx)
@@ -1019,7 +1017,7 @@ class Summariser:
             a["res"] = ("subres", meth, base, n)
             self.emit(st, "SUB", a, node)
             return a["res"]
-        if base == ("module", "io") and meth == "BytesIO":
+        if base in (("module", "io"), ("free", "io")) and meth == "BytesIO":
             t = ("newstream", "BytesIO", st.tick("newstream"), args, kws)
             self.emit(st, "NEWSTREAM", {"cls": "BytesIO", "args": args, "kw": kws, "res": t}, node)
             return t
@@ -1106,6 +1104,20 @@ class Summariser:
         st.events[:] = s.events
         st.counters = s.counters
         return o[1] if o[0] == "return" else N.NONE
+
+
+def root_of(t):
+    """Follow attribute/subscript/element/loop-carried wrappers down to the object a reference starts from."""
+    while isinstance(t, tuple) and t:
+        if t[0] in ("attr", "sub", "elem", "val", "key"):
+            t = t[1]
+        elif t[0] == "lv" and t[3] is not None:
+            t = t[3]
+        elif t[0] == "call" and t[1][0] == "attr" and t[1][2] in ("get", "values", "items", "keys"):
+            t = t[1][1]
+        else:
+            break
+    return t
 
 
 def N_dotted(node):
